@@ -436,6 +436,8 @@ def first_violation(fails):
 
 def eval_case(case):
     """ONE history (list of operation tokens) against the real code: WFc must hold after every step"""
+    if case.get('kind') == 'substitute-synth':
+        return eval_subst_synth(case)
     if case.get('kind') == 'substitute':
         return eval_subst(case)
     dumps, fails = real_trace(case['ops'])
@@ -665,6 +667,53 @@ def subst_stream(ck, n):
             ck.violation(obs['class'], f"resolve_tlib_cells({case['tlib']}) [{obs['stage']}]: {obs['failures'][0]}", case, obs, exp)
 
 
+def subst_synth_stream(ck, n):
+    """`Circuit.substitute` with random implementation circuits (designated cell, ignored inputs, outputs read internally, no
+    output, state elements … — shapes no built-in library cell has) on random hosts: WFc on the real objects afterwards, and after
+    copy / pickle of the result"""
+    import pickle as pk, base64
+    from . import c10
+    for _ in range(n):
+        st = ck.rng.getstate()
+        seed = ck.rng.randint(0, 2 ** 31 - 1)
+        case = {'kind': 'substitute-synth', 'seed': seed}
+        ok, obs, exp = eval_subst_synth(case)
+        ck.case(key=('subst-synth', seed), nontrivial=obs.get('impl_nodes', 0) > 0 and not obs.get('raised'),
+                tag=['stream:substitute-synth'] + [f'synth:{t}' for t in obs.get('tags', [])][:8])
+        if not ok:
+            ck.violation(obs['class'], f"substitute(random implementation) [{obs['stage']}]: {obs['failures'][0]}", case, obs, exp)
+
+
+def eval_subst_synth(case):
+    import random, pickle as pk
+    from . import c10
+    rng = random.Random(case['seed'])
+    with common.quiet():
+        impl, itags = c10.rand_impl(rng)
+        c, htags = c10.rand_host(rng, impl)
+    u = c.cells['u']
+    info = {'tags': itags + c10.impl_features(impl), 'impl_nodes': len(impl.nodes)}
+    f0 = wfc_failures(c)
+    if f0: return True, dict(info, skipped='host not well formed'), None
+    try:
+        with common.quiet(): c.substitute(u, impl)
+    except Exception as ex:
+        return True, dict(info, raised=f'{type(ex).__name__}: {ex}'[:200]), None     # success of the call itself belongs to C10
+    f1 = wfc_failures(c)
+    if f1:
+        return False, dict(info, **{'class': port_class('substitute:', f1), 'stage': 'substitute', 'failures': [x[1] for x in f1[:6]],
+                                    'dump_after': real_dump(c)[:1500]}), 'WFc holds after substitute'
+    for stage, fn in (('copy', lambda x: x.copy()), ('pickle', lambda x: pk.loads(pk.dumps(x)))):
+        try:
+            c2 = fn(c)
+        except Exception as ex:
+            return False, dict(info, **{'class': 'substitute:raises-after', 'stage': stage, 'failures': [f'{type(ex).__name__}: {ex}'[:200]]}), 'no exception'
+        f2 = wfc_failures(c2)
+        if f2:
+            return False, dict(info, **{'class': 'substitute:' + f2[0][0], 'stage': stage, 'failures': [x[1] for x in f2[:6]]}), 'WFc holds'
+    return True, info, None
+
+
 # ---------------------------------------------------------------------------------------------- domain boundary probes (notes only)
 def boundary_notes(ck):
     """what the real code does OUTSIDE well-formed use (DESIGN.md section 7): recorded as notes, never as violations"""
@@ -705,6 +754,7 @@ def run(ck):
             run_history(ck, g.toks, g.dumps, g.fails, g.tags | {'stream:history'}, prof)
     stream(n_hist)
     subst_stream(ck, 60 * ck.scale)
+    subst_synth_stream(ck, 150 * ck.scale)
     dangling_stream(ck, 40 * ck.scale)
     try:
         boundary_notes(ck)
